@@ -39,6 +39,8 @@ struct Pool {
     font: Vec<u32>,
     shaper: String,
     extra: Vec<Vec<u32>>,
+    virama: Vec<u32>,
+    cons: Vec<u32>,
 }
 
 #[derive(Default)]
@@ -86,6 +88,10 @@ fn read_spec() -> Spec {
                         p.font = hexlist(v);
                     } else if let Some(v) = tok.strip_prefix("shaper=") {
                         p.shaper = v.to_string();
+                    } else if let Some(v) = tok.strip_prefix("virama=") {
+                        p.virama = hexlist(v);
+                    } else if let Some(v) = tok.strip_prefix("cons=") {
+                        p.cons = hexlist(v);
                     }
                 }
                 sp.pools.push(p);
@@ -476,7 +482,8 @@ impl<'a> Runner<'a> {
             // known-finding classes, decided on the INPUT (see props/C08.py KNOWN_CLASSES):
             //  forced_direction_regrouping: the direction is forced and the same request with the direction left
             //    to the script passes;
-            //  indic_zwnj_cluster_split: Indic-shaper script, the text contains a joiner (U+200C, or U+200D: seen once
+            //  indic_zwnj_cluster_split: Indic-shaper script, the text contains a MISPLACED joiner (not directly after
+            //    <consonant or nukta, virama>) (U+200C, or U+200D: seen once
             //    in 167M shapes, Bengali <09CD 200D 09DD 09C8 0983 09CD 09A1 09CB>) and the same request with every
             //    joiner removed passes.
             let mut known: Option<&str> = None;
@@ -488,7 +495,25 @@ impl<'a> Runner<'a> {
                         known = Some("forced_direction_regrouping");
                     }
                 }
-                let zwnj = self.pool.shaper == "indic" && req.text.iter().any(|(c, _)| *c == 0x200C || *c == 0x200D);
+                // a joiner is well placed directly after <consonant or nukta, virama>; the class is about the others
+                let t: Vec<u32> = req.text.iter().map(|(c, _)| *c).collect();
+                let misplaced = (0..t.len()).any(|i| {
+                    (t[i] == 0x200C || t[i] == 0x200D) && !(i >= 2 && self.pool.virama.contains(&t[i - 1]) && self.pool.cons.contains(&t[i - 2]))
+                });
+                // ... or the text is ill-formed for the syllable machine: on the font WITH U+25CC the shaper repairs a
+                // broken cluster with a dotted circle the input does not contain (flag DO_NOT_INSERT cleared for the probe)
+                let has_joiner = t.iter().any(|c| *c == 0x200C || *c == 0x200D);
+                let broken = has_joiner && self.pool.shaper == "indic" && !misplaced && !t.contains(&0x25CC) && {
+                    let f1 = &self.fonts[1];
+                    let dc = f1.chars.iter().position(|c| *c == 0x25CC).map(|i| i as u32 + 1);
+                    let mut rq = req.clone();
+                    rq.flags &= !0x10;
+                    match (dc, Face::from_slice(&f1.data, 0)) {
+                        (Some(dc), Some(face1)) => shape(&face1, &rq).map(|gs| gs.iter().any(|(g, _)| *g == dc)).unwrap_or(false),
+                        _ => false,
+                    }
+                };
+                let zwnj = self.pool.shaper == "indic" && (misplaced || broken);
                 if known.is_none() && zwnj {
                     let mut r2 = req.clone();
                     r2.text = req.text.iter().filter(|(c, _)| *c != 0x200C && *c != 0x200D).enumerate().map(|(i, (c, _))| (*c, i as u32)).collect();
